@@ -160,3 +160,91 @@ func verifC01_e2e() {
 	rcv.CloseNow()
 	vObserve("e2e", ts.out, len(g.msgs))
 }
+
+// vBlock is 150 bytes without internal repetition: compress/flate's BestSpeed only searches for matches (also into
+// the previous message, when it keeps its window) in blocks of at least 128 bytes.
+const vBlock = "qxjvkzwphbmfgydlcutaroiesnQXJVKZWPHBMFGYDLCUTAROIESN0918273645" +
+	"lkjhgfdsapoiuytrewqmnbvcxz5647382910ZMXNCBVLAKSJDHFGQPWOEIRUTY-_=+[]{};:,.<>/?" + "!@#$%^&*()"
+
+var vCorpus = []string{
+	vBlock,
+	"prefix:" + vBlock + ":suffix",
+	"abcdabcdabcdabcd-0123456789-abcdabcd",
+	vBlock[40:] + vBlock[:40],
+}
+
+// C01.flate-e2e / C02 (compressed): a program of messages above the compression threshold (concrete contents with
+// repetitions within and across messages, so that the real compressor emits back-references into earlier messages when
+// it keeps its window) is written by a sender of either role under every negotiated takeover combination, checked on the
+// wire (RSV1 on first frames only) and read back by a real receiver of the opposite role configured with the same
+// negotiated options: every message must arrive byte-identical.
+func verifC01_flate_e2e() {
+	client := vParam("client", 1) == 1
+	mode := vParam("deflate", 1)
+	vInstallRand()
+	ts := vNewTransport(nil)
+	ts.endMode = vEndBlock
+	snd := vNewConn(ts, client, vCopts(mode), 16, 64)
+	snd.flateThreshold = vParam("threshold", 8)
+	nMsgs := vParam("msgs", 3)
+	var sent []vSent
+	for i := 0; i < nMsgs; i++ {
+		doc := []byte(vCorpus[vChoose("doc", len(vCorpus))])
+		if vChoose("short", 3) == 0 {
+			doc = doc[:4] // below the threshold: goes out uncompressed between compressed messages
+		}
+		typ := MessageType(1 + i%2)
+		if vChoose("api", 2) == 0 {
+			vAssert(snd.Write(vBG, typ, doc) == nil, "C01.flate.write-noerr")
+		} else {
+			w, err := snd.Writer(vBG, typ)
+			vAssert(err == nil, "C01.flate.writer-noerr")
+			cut := len(doc) / (1 + vChoose("cutAt", 3))
+			if cut > len(doc) {
+				cut = len(doc)
+			}
+			w.Write(doc[:cut])
+			w.Write(doc[cut:])
+			vAssert(w.Close() == nil, "C01.flate.close-noerr")
+		}
+		sent = append(sent, vSent{typ, append([]byte{}, doc...)})
+	}
+	vReach("C01.flate.sent")
+	// wire shape: RSV1 only on first frames, control-free, fragments in order
+	frames, ok := vParseWritten(ts.out)
+	vAssert(ok, "C02.flate.wellformed")
+	good := true
+	inMsg := false
+	compressedSeen := false
+	for _, f := range frames {
+		if f.opcode == 0 {
+			good = good && inMsg && !f.rsv1
+		} else {
+			good = good && !inMsg && (f.opcode == 1 || f.opcode == 2)
+			if f.rsv1 {
+				compressedSeen = true
+			}
+		}
+		good = good && !f.rsv2 && !f.rsv3 && f.masked == client
+		inMsg = !f.fin
+	}
+	vAssert(good, "C02.flate.rsv1-first-frame-only")
+	if compressedSeen {
+		vReach("C01.flate.compressed")
+	}
+	tr := vNewTransport(ts.out)
+	tr.step = vParam("step", 0)
+	rcv := vNewConn(tr, !client, vCopts(mode), 64, 64)
+	g := vReadLoop(rcv, vParam("buf", 7), len(sent)+1)
+	okm := len(g.msgs) == len(sent)
+	if okm {
+		for i := range sent {
+			okm = okm && g.types[i] == sent[i].typ && string(g.msgs[i]) == string(sent[i].payload)
+		}
+	}
+	vAssert(okm, "C01.flate.roundtrip")
+	vReach("C01.flate.received")
+	snd.CloseNow()
+	rcv.CloseNow()
+	vObserve("flate-e2e", len(g.msgs), len(ts.out))
+}
